@@ -109,6 +109,9 @@ pub mod hc {
         type Target = [T];
         fn deref(&self) -> &[T] { &self.buf[..self.n] }
     }
+    impl<T: Copy + Default> core::ops::DerefMut for Vec<T> {
+        fn deref_mut(&mut self) -> &mut [T] { &mut self.buf[..self.n] }
+    }
 
     /// the block `let value_ranges = {{ ... }};` cut out of src/parser/mod.rs, unmodified
     #[allow(unused_variables)]
